@@ -152,6 +152,7 @@ def main():
             {"name": "history", "path": "checks/history.py", "serves_properties": sorted(p for p, c in CHECKS.items() if c["engine"] == "history"),
              "kind_free_text": "Layer B histories; final states of related executions compared by TLC through spec/RelCheck.tla"},
             {"name": "filestep", "path": "checks/filestep.py", "serves_properties": ["C02", "C14"], "kind_free_text": "FileStep.tla model check + replay of action sequences into the real Workflow (Layer G); library called by the C02 and C14 checks"},
+            {"name": "plans", "path": "checks/plans.py", "serves_properties": ["C01"], "kind_free_text": "Plans.tla model check (finds F17) + replay of plan/sub-plan ownership transfer into the real Workflow (Layer G); library called by the C01 check"},
             {"name": "recycle", "path": "checks/recycle.py", "serves_properties": ["C01"], "kind_free_text": "Recycle.tla model check + replay of plan re-execution sequences into the real Workflow (Layer G); library called by the C01 check"},
         ],
         "checks": checks,
